@@ -136,3 +136,46 @@ pub fn self_check() -> Result<(), String> {
     }
     Ok(())
 }
+
+/// Choose the four bytes at `payload[pos..pos + 4]` so that the CRC-32C of the whole payload is
+/// `target` (CRC-32C is affine over GF(2): 32 unknown bits, Gaussian elimination). None only if
+/// the 32 effect vectors are dependent, which does not happen for four adjacent bytes.
+pub fn solve_crc32c(payload: &mut [u8], pos: usize, target: u32) -> Option<()> {
+    for b in payload[pos..pos + 4].iter_mut() {
+        *b = 0;
+    }
+    let base = crc32c(payload);
+    let mut basis: Vec<(u32, u32)> = Vec::new(); // (effect vector, which of the 32 bits)
+    for bit in 0..32usize {
+        payload[pos + bit / 8] ^= 1 << (bit % 8);
+        let mut v = crc32c(payload) ^ base;
+        payload[pos + bit / 8] ^= 1 << (bit % 8);
+        let mut m = 1u32 << bit;
+        for (bv, bm) in &basis {
+            let top = 31 - bv.leading_zeros();
+            if v >> top & 1 == 1 {
+                v ^= bv;
+                m ^= bm;
+            }
+        }
+        if v != 0 {
+            basis.push((v, m));
+            basis.sort_by(|a, b| b.0.cmp(&a.0));
+        }
+    }
+    let mut want = base ^ target;
+    let mut chosen = 0u32;
+    for (bv, bm) in &basis {
+        let top = 31 - bv.leading_zeros();
+        if want >> top & 1 == 1 {
+            want ^= bv;
+            chosen ^= bm;
+        }
+    }
+    if want != 0 {
+        return None;
+    }
+    payload[pos..pos + 4].copy_from_slice(&chosen.to_le_bytes());
+    debug_assert_eq!(crc32c(payload), target);
+    Some(())
+}
